@@ -578,6 +578,10 @@ def check(ctx, rep):
 
     # every file a worker has rewritten has its changeset in the report: the merge loop must see every element of the map iterator
     rule_iter_no_resume(ctx, rep)
+    from .c14 import rule_insert_after_terminated
+
+    # the diff shows a separate added line; on disk the new requirement must not be glued to an unterminated last line
+    rule_insert_after_terminated(ctx, rep)
     from .c15 import rule_model_faithful, rule_relative_path, rule_report_complete
 
     # 'a file without a changeset is unchanged, every changeset names a file that did change': what the pipelines record must reach the
